@@ -4,6 +4,7 @@ import (
 	"fmt"
 	"os"
 	"path/filepath"
+	"runtime"
 	"sort"
 	"strings"
 	"time"
@@ -35,6 +36,8 @@ type WatchWorld struct {
 	Events   []string     `json:"events,omitempty"` // subscribed event names; empty = all
 	History  []WatchEvent `json:"history"`
 	TaskDurs []int        `json:"durs"`
+	// Relative: patterns are relative and taskctl is "started" in the root of the tree
+	Relative bool `json:"relative,omitempty"`
 }
 
 var opNames = map[uint32]string{1: "create", 2: "write", 4: "remove", 8: "rename", 16: "chmod"}
@@ -177,6 +180,7 @@ func GenWatchWorld(ch *Choices, thorough bool) *WatchWorld {
 		w.TaskDurs = append(w.TaskDurs, ch.Choose(1500, "task-dur"))
 	}
 	w.TaskDurs = append(w.TaskDurs, ch.Choose(1500, "task-dur"))
+	w.Relative = ch.Bool(1, 2, "relative-patterns")
 	return w
 }
 
@@ -189,6 +193,11 @@ func runWatchJob(c *Ctl, job *Job, idx int, res *RunResult, pre *watchPre) {
 	}
 	// set-up invariant (pure part): selected paths == reference matcher
 	got := append([]string(nil), pre.selected...)
+	for i, p := range got {
+		if !filepath.IsAbs(p) {
+			got[i] = pre.root + "/" + p
+		}
+	}
 	sort.Strings(got)
 	uniq := got[:0]
 	for i, p := range got {
@@ -307,6 +316,9 @@ func runWatchJob(c *Ctl, job *Job, idx int, res *RunResult, pre *watchPre) {
 		if st, err := os.Stat(target); err == nil && st.IsDir() && c.Ch.Bool(1, 2, "child-of-dir") {
 			target = target + "/new-" + genWord(c.Ch, 4)
 		}
+		if w.Relative {
+			target = relOne(pre.root, target)
+		}
 		ev.Name = target
 		durIdx = i + 1
 		before := len(execs)
@@ -408,6 +420,7 @@ type watchPre struct {
 	selected []string
 	err      error
 	stop     chan struct{}
+	oldwd    string
 }
 
 func prepareWatch(ch *Choices, job *Job, idx int) *watchPre {
@@ -436,25 +449,49 @@ func prepareWatch(ch *Choices, job *Job, idx int) *watchPre {
 	abs := func(ps []string) []string {
 		var out []string
 		for _, p := range ps {
-			out = append(out, pre.root+"/"+p)
+			if pre.w.Relative {
+				out = append(out, p)
+			} else {
+				out = append(out, pre.root+"/"+p)
+			}
 		}
 		return out
 	}
+	if pre.w.Relative {
+		pre.oldwd, _ = os.Getwd()
+		if err := os.Chdir(pre.root); err != nil {
+			pre.err = err
+			return pre
+		}
+	}
 	t := buildRealTask(&TaskSpec{Name: "wt", NCmd: 1})
+	pollersBefore := countPollers()
 	wt, err := watch.NewWatcher("w", pre.w.Events, abs(pre.w.Include), abs(pre.w.Exclude), t)
 	if err != nil {
 		pre.err = err
 		return pre
 	}
 	pre.watcher = wt
-	// let fsnotify's reader goroutine start (it captures its channels in deferred calls) before
-	// the event channel is substituted inside the bubble
-	time.Sleep(2 * time.Millisecond)
+	// fsnotify's reader goroutine captures its channels in deferred calls when it starts: wait
+	// until it sits in its poller before the event channel is substituted inside the bubble
+	for i := 0; i < 4000 && countPollers() <= pollersBefore; i++ {
+		time.Sleep(500 * time.Microsecond)
+	}
 	pre.selected = wt.VerifPaths()
 	return pre
 }
 
 func (pre *watchPre) cleanup() {
+	if pre.oldwd != "" {
+		os.Chdir(pre.oldwd)
+	}
 	close(pre.stop)
 	os.RemoveAll(pre.root)
+}
+
+// countPollers: number of goroutines currently blocked in fsnotify's inotify poller.
+func countPollers() int {
+	buf := make([]byte, 1<<20)
+	n := runtime.Stack(buf, true)
+	return strings.Count(string(buf[:n]), "fsnotify.(*fdPoller).wait")
 }
